@@ -446,11 +446,16 @@ class SReal:
         return Or(self.pinf, And(self.is_fin(), self.r > 0))
 
     # -- arithmetic
+    def _plain(self):
+        return self.nan is False and self.pinf is False and self.ninf is False
+
     def __add__(self, o):
         o = SReal.lift(o)
         if o is None:
             return NotImplemented
         a, b = self, o
+        if a._plain() and b._plain():
+            return SReal(a.r + b.r)
         nan = Or(a.nan, b.nan, And(a.pinf, b.ninf), And(a.ninf, b.pinf))
         pinf = And(Not(nan), Or(a.pinf, b.pinf))
         ninf = And(Not(nan), Or(a.ninf, b.ninf))
@@ -480,6 +485,8 @@ class SReal:
         if o is None:
             return NotImplemented
         a, b = self, o
+        if a._plain() and b._plain():
+            return SReal(a.r * b.r)
         a_inf, b_inf = a.is_inf(), b.is_inf()
         nan = Or(a.nan, b.nan, And(a_inf, b.is_zero()), And(b_inf, a.is_zero()))
         neg = Xor(a.is_neg(), b.is_neg())
@@ -492,6 +499,8 @@ class SReal:
         if o is None:
             return NotImplemented
         a, b = self, o
+        if a._plain() and b._plain() and z3.is_rational_value(b.r) and b.r.numerator_as_long() != 0:
+            return SReal(a.r / b.r)
         a_inf, b_inf = a.is_inf(), b.is_inf()
         a_zero, b_zero = a.is_zero(), b.is_zero()
         nan = Or(a.nan, b.nan, And(a_zero, b_zero), And(a_inf, b_inf))
@@ -542,11 +551,15 @@ class SReal:
 
     # -- comparisons (IEEE: anything with NaN is False, != is True)
     def _lt(a, b):
+        if a._plain() and b._plain():
+            return a.r < b.r
         return And(Not(a.nan), Not(b.nan),
                    Or(And(a.ninf, Not(b.ninf)), And(b.pinf, Not(a.pinf)),
                       And(a.is_fin(), b.is_fin(), a.r < b.r)))
 
     def _eq(a, b):
+        if a._plain() and b._plain():
+            return a.r == b.r
         return And(Not(a.nan), Not(b.nan),
                    Or(And(a.pinf, b.pinf), And(a.ninf, b.ninf),
                       And(a.is_fin(), b.is_fin(), a.r == b.r)))
@@ -618,7 +631,7 @@ class SReal:
 
 
 def _simp(t):
-    return z3.simplify(t) if z3.is_expr(t) else t
+    return t
 
 
 def smin(a, b):
